@@ -115,10 +115,11 @@ def out_matches(ev, expected):
 
 
 class Dev:
-    __slots__ = ("aspect", "label", "op", "party", "msg")
+    __slots__ = ("aspect", "label", "op", "party", "msg", "res")
 
     def __init__(self, aspect, ev, msg):
         self.aspect = aspect
+        self.res = ev.res
         self.label = ev.label
         self.op = ev.op
         self.party = ev.party
